@@ -378,6 +378,28 @@ def check(prop: str, tier: str, seed: int, replay: str | None = None) -> int:
     return rc
 
 
+class CaseTimeout(BaseException):
+    """derives from BaseException so that `except Exception` inside impl() cannot swallow it"""
+
+
+def with_timeout(fn, c, seconds=None):
+    """Run the implementation on one case with a wall-clock cap (a hang is an observable, not an infra failure)."""
+    import signal
+
+    seconds = seconds or int(os.environ.get("VERIF_CASE_TIMEOUT", "20"))
+
+    def onalarm(signum, frame):
+        raise CaseTimeout(f"implementation did not finish within {seconds}s")
+
+    old = signal.signal(signal.SIGALRM, onalarm)
+    signal.alarm(seconds)
+    try:
+        return fn(c)
+    finally:
+        signal.alarm(0)
+        signal.signal(signal.SIGALRM, old)
+
+
 def run_cases(mod, cases, known, violations, known_hits, record=True):
     """Run impl + model on cases. Classify each disagreement / oracle failure."""
     impl_outs = []
@@ -385,8 +407,8 @@ def run_cases(mod, cases, known, violations, known_hits, record=True):
     errs = Counter()
     for c in cases:
         try:
-            o = mod.impl(c)
-        except Exception as e:  # harness bug or impl API break: treat as observable
+            o = with_timeout(mod.impl, c)
+        except (Exception, CaseTimeout) as e:  # harness bug, impl API break or hang: an observable
             o = {"harness_exception": type(e).__name__ + ": " + str(e)[:200]}
         impl_outs.append(o)
         try:
@@ -412,16 +434,22 @@ def run_cases(mod, cases, known, violations, known_hits, record=True):
         if isinstance(o, dict) and "error" in o:
             errs[str(o["error"])] += 1
         why_corr = None
-        if agree:
-            why_corr = agree(c, o, m)
-        elif canonical(o) != canonical(m):
-            why_corr = "model and implementation differ"
         why_prop = None
-        try:
-            why_prop = mod.oracle(c, o)
-        except Exception as e:
-            why_prop = None
-            log("oracle raised", repr(e))
+        if isinstance(o, dict) and "harness_exception" in o:
+            why_corr = "harness could not run the implementation on this case: " + o["harness_exception"]
+        else:
+            try:
+                if agree:
+                    why_corr = agree(c, o, m)
+                elif canonical(o) != canonical(m):
+                    why_corr = "model and implementation differ"
+            except Exception as e:
+                why_corr = "agree() raised " + repr(e)[:200]
+            try:
+                why_prop = mod.oracle(c, o)
+            except Exception as e:
+                why_prop = None
+                log("oracle raised", repr(e))
         if why_corr is None and why_prop is None:
             continue
         fid = None
@@ -462,9 +490,9 @@ def search(mod, prop, seed, budget, known, known_hits):
             if time.time() - t0 > budget:
                 break
             try:
-                o = mod.impl(c)
+                o = with_timeout(mod.impl, c)
                 why = mod.oracle(c, o)
-            except Exception:
+            except (Exception, CaseTimeout):
                 continue
             if why is None:
                 continue
